@@ -390,7 +390,8 @@ class Check(object):
         bounded = self.bounded_extras()
         for b in bounded:
             if b.get("violation"):
-                exit_code = 1 if exit_code in (0, 2) else exit_code
+                # a concrete failing input on the real code decides, whatever else was undecided or outside the subset
+                exit_code = 1
                 violations += 1
                 self.say("VIOLATION property=%s replay=%s bounded-check=%s" % (pid, b.get("replay", "-"), b.get("name")))
             elif b.get("error") or (isinstance(b.get("result"), dict) and b["result"].get("error")):
